@@ -1,6 +1,8 @@
 package main
 
 import (
+	"strconv"
+	"strings"
 	"math/rand"
 
 	"verifharness/sim"
@@ -16,7 +18,16 @@ func forge(kind string, ev *sim.Event, s *sim.Session, rng *rand.Rand) []byte {
 	if m.NetFn == 0x2c {
 		data = append(data, m.Body)
 	}
-	for i := 0; i < 20; i++ { // a value the BMC never produced
+	// "padbyte:<extra>:<k>": <extra> more value bytes (so that every pad length occurs), the k-th pad byte
+	// (mod the pad length) wrong, everything else - AuthCode included - right
+	extra, padAt := 0, -1
+	if strings.HasPrefix(kind, "padbyte:") {
+		w := strings.Split(kind, ":")
+		extra, _ = strconv.Atoi(w[1])
+		padAt, _ = strconv.Atoi(w[2])
+		kind = "padbyte"
+	}
+	for i := 0; i < 20+extra; i++ { // a value the BMC never produced
 		data = append(data, 0xA5)
 	}
 	msg := sim.Message(m.RqAddr, m.NetFn+1, m.RqLUN, m.RsAddr, m.RqSeq, m.RsLUN, m.Cmd, data)
@@ -56,7 +67,7 @@ func forge(kind string, ev *sim.Event, s *sim.Session, rng *rand.Rand) []byte {
 		return full(s.BMCID, s.K1)
 	case "zerosid":
 		return full(0, s.K1)
-	case "badpad", "padover", "padzero":
+	case "badpad", "padover", "padzero", "padbyte":
 		// needs the keys: correctly signed, confidentiality pad malformed
 		n := (16 - (len(msg)+1)%16) % 16
 		plain := append([]byte{}, iv...)
@@ -76,6 +87,13 @@ func forge(kind string, ev *sim.Event, s *sim.Session, rng *rand.Rand) []byte {
 				}
 			} else {
 				plain[len(plain)-2] ^= 0x10
+			}
+		case "padbyte":
+			if n == 0 {
+				plain[len(plain)-1] = 1
+				plain[len(plain)-2] = 0x5a // a one-byte pad that is not 01
+			} else {
+				plain[len(plain)-1-n+padAt%n] ^= 0x20
 			}
 		case "padover":
 			plain[len(plain)-1] = uint8(17 + rng.Intn(239))
